@@ -59,6 +59,74 @@ fn run_one(parser: &str, text: &str, name: &str) -> Outcome {
     }
 }
 
+/// `lib_runner <listfile> <outdir> hist <seed>`: is the output of an input independent of what the SAME THREAD generated
+/// before it?  Every input is first generated on a fresh thread; then ONE long-lived thread generates all inputs in a
+/// seeded shuffled order, in the reverse of that order and in list order, and every result is compared with the fresh one.
+/// Output: `H \t id \t pass \t position \t id generated just before` per difference (the differing text goes to
+/// <outdir>/<id>.hist), then `HSUMMARY \t runs \t differences`.
+fn history_mode(list: &str, outdir: &std::path::Path, seed: u64) {
+    std::panic::set_hook(Box::new(|_| {}));
+    let mut cases: Vec<(String, String, Arc<String>, String)> = Vec::new();
+    for line in list.lines() {
+        let f: Vec<&str> = line.split('\t').collect();
+        if f.len() != 4 {
+            continue;
+        }
+        if let Ok(t) = std::fs::read_to_string(f[2]) {
+            cases.push((f[0].to_string(), f[1].to_string(), Arc::new(t), f[3].to_string()));
+        }
+    }
+    let mut fresh: Vec<Outcome> = Vec::new();
+    for (_, parser, text, name) in &cases {
+        let (parser, text, name) = (parser.clone(), text.clone(), name.clone());
+        let h = std::thread::Builder::new().stack_size(32 << 20).spawn(move || run_one(&parser, &text, &name)).unwrap();
+        fresh.push(h.join().expect("worker thread died"));
+    }
+    let n = cases.len();
+    let mut order: Vec<usize> = (0..n).collect();
+    let mut x = seed.wrapping_mul(0x9E3779B97F4A7C15) | 1;
+    for i in (1..n).rev() {
+        x ^= x << 13;
+        x ^= x >> 7;
+        x ^= x << 17;
+        order.swap(i, (x % (i as u64 + 1)) as usize);
+    }
+    let mut passes: Vec<Vec<usize>> = vec![order.clone()];
+    order.reverse();
+    passes.push(order);
+    passes.push((0..n).collect());
+    let cases = Arc::new(cases);
+    let cases2 = cases.clone();
+    let passes2 = passes.clone();
+    let h = std::thread::Builder::new()
+        .stack_size(64 << 20)
+        .spawn(move || {
+            let mut res: Vec<Vec<Outcome>> = Vec::new();
+            for p in &passes2 {
+                res.push(p.iter().map(|&i| run_one(&cases2[i].1, &cases2[i].2, &cases2[i].3)).collect());
+            }
+            res
+        })
+        .unwrap();
+    let res = h.join().expect("history thread died");
+    let stdout = std::io::stdout();
+    let mut out = stdout.lock();
+    let (mut runs, mut diffs) = (0usize, 0usize);
+    for (pi, p) in passes.iter().enumerate() {
+        for (pos, &i) in p.iter().enumerate() {
+            runs += 1;
+            if res[pi][pos] != fresh[i] {
+                diffs += 1;
+                let prev = if pos > 0 { cases[p[pos - 1]].0.clone() } else { "-".to_string() };
+                writeln!(out, "H\t{}\t{}\t{}\t{}", cases[i].0, pi, pos, prev).unwrap();
+                std::fs::write(outdir.join(format!("{}.hist", cases[i].0)), res[pi][pos].text.as_bytes()).unwrap();
+                std::fs::write(outdir.join(format!("{}.fresh", cases[i].0)), fresh[i].text.as_bytes()).unwrap();
+            }
+        }
+    }
+    writeln!(out, "HSUMMARY\t{runs}\t{diffs}").unwrap();
+}
+
 fn main() {
     let a: Vec<String> = std::env::args().collect();
     if a.len() != 5 {
@@ -67,6 +135,10 @@ fn main() {
     }
     let list = std::fs::read_to_string(&a[1]).expect("listfile");
     let outdir = std::path::PathBuf::from(&a[2]);
+    if a[3] == "hist" {
+        history_mode(&list, &outdir, a[4].parse().unwrap());
+        return;
+    }
     let threads: usize = a[3].parse().unwrap();
     let reps: usize = a[4].parse().unwrap();
     std::panic::set_hook(Box::new(|_| {}));
